@@ -112,6 +112,21 @@ func cmdVC(args []string) {
 			fmt.Printf("   uncontracted call: %s\n", u)
 		}
 		obls := append(g.autoCanaries(), g.obls...)
+		if os.Getenv("GOVC_SLICEINFO") != "" {
+			for _, o := range obls {
+				if *only != "" && !strings.Contains(o.Name, *only) {
+					continue
+				}
+				full := len(o.Query(false))
+				for _, d := range []int{1, 2, 4} {
+					sq := o.QuerySliced(false, d)
+					fmt.Printf("   sliceinfo %s depth %d: %d / %d bytes\n", o.Name, d, len(sq), full)
+					if *dump != "" {
+						os.WriteFile(fmt.Sprintf("%s/slice%d_%s.smt2", *dump, d, sanitize(o.Name)), []byte(sq+"(check-sat)\n"), 0644)
+					}
+				}
+			}
+		}
 		if *only != "" {
 			var f []*Obligation
 			for _, o := range obls {
